@@ -1,6 +1,7 @@
 """C04 — each connection starts with one registration and stays quiet until accepted."""
 import struct
 
+import common as C
 import framework as F
 from props.c01 import frame
 from props.c03 import set_value
@@ -20,7 +21,7 @@ def ping_result(rr=2):
 
 
 EVS = ["start", "gotip", "gotip", "dnsok", "dnsok", "dnsnone", "connect", "connect", "iterate", "iterate", "iterate", "regok", "regok",
-       "regrefused", "othermsg", "disconnect", "disconnect", "recon", "stop", "local", "local", "local"]
+       "regrefused", "othermsg", "disconnect", "disconnect", "recon", "stop", "local", "local", "local", "latedata", "latedown"]
 
 
 class C04(F.Spec):
@@ -40,7 +41,9 @@ class C04(F.Spec):
             "refusal, leftovers of the old connection never reach the new one. Timed scenarios (real timers, inputs, wifi polling) "
             "are checked by the monitor only. Non-trivial: a connection was established; distinct = sequence of event kinds.")
     assumptions = ["SDK contract: connect callback only after espconn_connect, data and disconnect callback only on an established "
-                   "connection, a local espconn_disconnect does not call the disconnect callback",
+                   "connection, a local espconn_disconnect does not call the disconnect callback from inside the call: an established connection the "
+                   "firmware closes stays 'closing' - data may still arrive, the close is reported by a later disconnect callback, and the next "
+                   "connection is not established before that report",
                    "server name is resolved through DNS (not a literal address); TLS is not modelled"]
 
     def cases(self, rng, tier):
@@ -52,19 +55,34 @@ class C04(F.Spec):
         for code in [c for c in range(0, 46) if c != 3] + [99, 255]:
             yield self.scripted("refusal-code-%d" % code, ["start", "gotip", "dnsok", "connect", "iterate", "iterate", "regrefused:%d" % code, "local", "iterate",
                                                            "local", "stop", "local", "iterate"])
+        # the device closes the connection itself (refusal), the server's last segment and then the close report come afterwards; the
+        # next connection must not see those bytes (a stale acceptance would let the device talk on a connection nobody accepted)
+        for k in range(4):
+            yield self.scripted("late-data-%d" % k, ["start", "gotip", "dnsok", "connect", "iterate", "iterate", "regrefused", "iterate", "stop",
+                                                    "latedata", "local", "start", "gotip", "dnsok", "connect", "iterate", "iterate", "local",
+                                                    "iterate", "local", "regok", "local"], C.Rng(100 + k))
         for i in range(150 if tier == "quick" else 1500):
             yield self.scripted("gen%d" % i, self.walk_events(rng, rng.randint(6, 45)), rng)
         for i in range(20 if tier == "quick" else 150):
             yield self.timed(rng, i)
+        # an accepted connection (which leaves its activity timeout and stamps behind), a lost connection, the next connection
+        # established and its registration sent - and then a silent server: nothing but the registration goes out on it
+        for k, (T, silent) in enumerate([(10, 12), (10, 25), (20, 30), (5, 9)]):
+            ops = ["board relay2 0", "init -1", "sentbytes 1", "netstart", "wifi 5", "adv 1000", "dnsreply 10.0.0.7", "tcpup", "adv 200",
+                   "recv " + reg_result(3, T).hex(), "adv 1000", "tcpdown"] + ["adv 1000"] * 3 + \
+                  ["wifi 1", "adv 1000", "wifi 5", "adv 1000", "dnsreply 10.0.0.7", "tcpup", "adv 200"] + ["adv 1000"] * silent
+            yield F.Case("pending-silence-%d" % k, ops, {"kind": "timed", "tags": ["kind:timed", "pending-silence"]})
 
     @staticmethod
     def walk_events(rng, n):
         """random walk that mostly picks events the SDK can deliver in the current state (a rough mirror of the life
         cycle, used for generation only), so that histories reach several connections; 20 % arbitrary events"""
-        st = dict(started=0, srpc=0, res=0, pend=0, up=0, recon=0, stop=0, reg=0)
+        st = dict(started=0, srpc=0, res=0, pend=0, up=0, recon=0, stop=0, reg=0, closing=0)
         out = []
         for _ in range(n):
             en = ["local", "gotip"]
+            if st["closing"]:
+                en += ["latedata"] * 3 + ["latedown"] * 2
             if not st["started"]:
                 en += ["start"] * 3
             if st["started"] and not st["srpc"] and not st["res"]:
@@ -94,7 +112,7 @@ class C04(F.Spec):
                 if e == "dnsok":
                     st["pend"] = 1; st["up"] = 0
             elif e == "connect" and st["pend"]:
-                st.update(pend=0, up=1, srpc=1, reg=0)
+                st.update(pend=0, up=1, srpc=1, reg=0, closing=0)
             elif e == "regok" and st["up"]:
                 st["reg"] = 1
             elif e == "regrefused" and st["up"]:
@@ -105,7 +123,10 @@ class C04(F.Spec):
             elif e == "recon" and st["recon"]:
                 st.update(recon=0, srpc=0, up=0, reg=0, started=1)
             elif e == "stop" and st["stop"]:
+                st["closing"] = st["up"]          # the device closes an established connection itself
                 st.update(stop=0, srpc=0, up=0, reg=0, started=0)
+            elif e in ("latedata", "latedown"):
+                st["closing"] = 0
         return out
 
     def scripted(self, name, evs, rng=None):
@@ -143,6 +164,14 @@ class C04(F.Spec):
                     kinds.append("buffered")
                 else:
                     ops.append("tcpdown")
+            elif e == "latedata":
+                # the server's last segment arrives after the device asked for the close (a complete frame - the acceptance of a
+                # registration -, half a frame, or a frame and a half), then the close is reported
+                fr = rng.choice([reg_result(3, 10), frame(VER, 9, 110, set_value(5, 0, 0, [1]))]) if rng else reg_result(3, 10)
+                cut = rng.choice([len(fr), len(fr), len(fr) // 2, len(fr) + 10]) if rng else len(fr)
+                ops += ["recv " + (fr + fr)[:cut].hex(), "tcpdown"]
+            elif e == "latedown":
+                ops.append("tcpdown")
             elif e == "recon":
                 ops.append("fire recon")
             elif e == "stop":
@@ -239,8 +268,22 @@ class C04(F.Spec):
                 if call == REG_CALL:
                     regstart.add(k)
         MAP = {"netstart": "start", "gotip": "gotip", "tcpup": "connect", "tcpdown": "disconnect"}
+        # per op: had the device closed an established connection itself, the close not yet reported? (read from the trace)
+        closing_at, closing, was_up, srpc_before, has_srpc = [], False, False, [], False
+        for g in raw:
+            closing_at.append(closing)
+            srpc_before.append(has_srpc)
+            if any(x == "TCPDOWN" for x in g):
+                closing = False
+            elif any(x.startswith("DISCONNECT") for x in g) and was_up:
+                closing = True
+            dc = [x for x in g if x.startswith("DCSTATE")]
+            if dc:
+                was_up = "conn=2" in dc[-1]
+                has_srpc = "srpc=1" in dc[-1]
         for k, (op, g) in enumerate(zip(case.ops, raw)):
             t = op.split()
+            closing = closing_at[k] if k < len(closing_at) else False
             if t[0] == "localev" and k > 0 and case.ops[k - 1].startswith("esp "):
                 continue      # buffered by a scripted INPROGRESS: no protocol state change, judged by the monitor only
             ev = MAP.get(t[0])
@@ -250,11 +293,14 @@ class C04(F.Spec):
                 ev = {"iterate": "iterate", "recon": "recon", "stop": "stop"}.get(t[1])
             elif t[0] == "localev":
                 ev = "local"
+            elif t[0] == "recv" and closing and not (srpc_before[k] if k < len(srpc_before) else False):
+                ev = "latedata"                  # the device has closed this connection itself: nothing reads the bytes
             elif t[0] == "recv":
                 pl = bytes.fromhex(t[1])
-                if len(pl) < 23 or pl[-5:] != b"SUPLA":
+                tot = 23 + struct.unpack("<I", pl[14:18])[0] if len(pl) >= 23 else 1 << 30
+                if len(pl) < tot or pl[tot - 5:tot] != b"SUPLA":
                     ev = "othermsg"              # a partial frame: the receive path runs (registration step), no message yet
-                call = struct.unpack("<I", pl[10:14])[0] if ev is None else -1
+                call = struct.unpack("<I", pl[10:14])[0] if ev is None else -1    # (the first frame decides; a partial one may follow)
                 if ev is not None:
                     pass
                 elif call == 70:
@@ -278,7 +324,8 @@ class C04(F.Spec):
             oth = "-"
             if ev == "local":
                 oth = "1" if any(x.startswith("CALL ") for x in g) else "0"
-            exp.append(["DC started=%s srpc=%s registered=%d reg=%d other=%s" % (f["started"], f["srpc"], regd, 1 if k in regstart else 0, oth)])
+            stale = 1 if (int(f["recvbuf"]) > 0 and f["srpc"] == "0") else 0
+            exp.append(["DC started=%s srpc=%s registered=%d reg=%d other=%s stale=%d" % (f["started"], f["srpc"], regd, 1 if k in regstart else 0, oth, stale)])
         return "\n".join(ops) + "\n", exp
 
     def monitor(self, case, groups, rc, err):
